@@ -42,11 +42,16 @@ type Msg struct {
 	Parts   []int  `json:"parts,omitempty"`
 	Read    string `json:"read"` // ReadMessage NextReader
 	RdParts []int  `json:"rd_parts,omitempty"`
-	Comp    int    `json:"comp,omitempty"`  // 0 leave, 1 EnableWriteCompression(true), 2 (false)
-	Level   int    `json:"level,omitempty"` // 100 = leave; else SetCompressionLevel(level)
-	Ping    int    `json:"ping,omitempty"`  // >0: the sender first sends a ping of Ping-1 bytes
-	Both    bool   `json:"both,omitempty"`  // Prepared: the same prepared message is also sent in the other direction
+	Comp    int    `json:"comp,omitempty"`     // 0 leave, 1 EnableWriteCompression(true), 2 (false)
+	Level   int    `json:"level,omitempty"`    // 100 = leave; else SetCompressionLevel(level)
+	Ping    int    `json:"ping,omitempty"`     // >0: the sender first sends a ping of Ping-1 bytes
+	Both    bool   `json:"both,omitempty"`     // Prepared: the same prepared message is also sent in the other direction
 	DataEOF bool   `json:"data_eof,omitempty"` // ReadFrom: the source returns its last bytes together with io.EOF
+	// Idle: before this message a long time passes on both connections (longer than any timeout in use):
+	// a deadline left over from the handshake, a ping or an automatic pong would now have expired
+	Idle bool `json:"idle,omitempty"`
+	// PingDeadline: the ping is written with a write deadline (an hour ahead) instead of none
+	PingDeadline bool `json:"ping_deadline,omitempty"`
 }
 
 type Case struct {
@@ -90,6 +95,7 @@ type sent struct {
 
 type stats struct {
 	multiFrame, len16, len64, compressed, partial, prepared, jsonAPI, readFrom, serverFirst, abandoned, partialRead bool
+	idle                                                                                                            bool
 }
 
 func write(c *websocket.Conn, m Msg, p []byte, pm *websocket.PreparedMessage) error {
@@ -255,9 +261,18 @@ func runCase(c Case) (st stats, err error) {
 				return st, fmt.Errorf("msg %d: SetCompressionLevel(%d): %v", i, m.Level, e)
 			}
 		}
+		if m.Idle {
+			p.ClientNC.Elapse()
+			p.ServerNC.Elapse()
+			st.idle = true
+		}
 		if m.Ping > 0 {
 			pp := rtmpx.Fill(m.Ping-1, uint64(i)+3)
-			if e := s.WriteControl(websocket.PingMessage, pp, zeroTime); e != nil {
+			dl := zeroTime
+			if m.PingDeadline {
+				dl = time.Now().Add(time.Hour)
+			}
+			if e := s.WriteControl(websocket.PingMessage, pp, dl); e != nil {
 				return st, fmt.Errorf("msg %d: WriteControl(ping): %v", i, e)
 			}
 			pings[m.From] = append(pings[m.From], pp)
@@ -400,6 +415,7 @@ func effWriteBuf(c wsx.Config, server bool) int {
 func genCase(t *rapid.T) Case {
 	ck, sk := rapid.IntRange(0, 3).Draw(t, "ccomp") > 0, rapid.IntRange(0, 3).Draw(t, "scomp") > 0
 	c := Case{Client: genConfig(t, ck), Server: genConfig(t, sk)}
+	c.Client.HandshakeTimeout = rapid.SampledFrom([]time.Duration{0, 45 * time.Second, time.Hour}).Draw(t, "hstimeout")
 	if rapid.IntRange(0, 3).Draw(t, "first") == 0 {
 		c.First = rapid.SliceOfN(rapid.SampledFrom([]int{0, 1, 125, 126, 300, 5000}), 1, 3).Draw(t, "firstsizes")
 	}
@@ -468,7 +484,9 @@ func genCase(t *rapid.T) Case {
 		}
 		if rapid.IntRange(0, 4).Draw(t, "pingk") == 0 {
 			m.Ping = 1 + rapid.SampledFrom([]int{0, 1, 124, 125}).Draw(t, "pinglen")
+			m.PingDeadline = rapid.Bool().Draw(t, "pingdl")
 		}
+		m.Idle = rapid.IntRange(0, 3).Draw(t, "idle") == 0
 		c.Msgs = append(c.Msgs, m)
 	}
 	return c
@@ -478,10 +496,10 @@ var recSession = ev.New(prop, "sessions",
 	"rapid-generated sessions between a library client and a library server (handshake through Dial/Upgrade; compression offered/accepted independently; read/write buffer sizes {0,1,16,125,126,512,4096,65536} and "+
 		"hijacked-buffer sizes drawn): <=10 text/binary messages in both directions, sizes around 0/125/126/65535/65536 and the write buffer size and its multiples (MiB sizes in the thorough tier), written through "+
 		"WriteMessage / NextWriter+Write with a drawn partition / io.WriteString / io.Copy(ReadFrom) with drawn read sizes / WritePreparedMessage (also to both roles) / WriteJSON, compression toggled and levels -2..9 "+
-		"set between messages, pings interleaved, read through ReadMessage / NextReader with drawn read sizes / ReadJSON; oracle: peer receives the same (type,payload) sequence AND each direction's sniffed bytes "+
+		"set between messages, pings interleaved (with or without a write deadline), long idle periods on a harness-owned clock (a deadline left armed from the handshake timeout, a ping or an automatic pong then fails the next read/write), read through ReadMessage / NextReader with drawn read sizes / ReadJSON; oracle: peer receives the same (type,payload) sequence AND each direction's sniffed bytes "+
 		"pass the strict RFC 6455/7692 parser and reassemble/inflate to what was written AND the handshake response carries the RFC accept key/extension parameters; "+
 		"non-trivial = a multi-frame or compressed message, a 16/64-bit length, or partial writes").
-	Require("multi-frame", "len16", "len64", "compressed", "partial-writes", "prepared", "json", "read-from", "negotiated", "not-negotiated", "server-speaks-first", "abandoned-writer", "partial-read")
+	Require("multi-frame", "len16", "len64", "compressed", "partial-writes", "prepared", "json", "read-from", "negotiated", "not-negotiated", "server-speaks-first", "abandoned-writer", "partial-read", "idle-time-passes", "idle-after-handshake-timeout")
 
 func TestSessions(t *testing.T) {
 	ev.Rapid(t, "sessions", 5000, 100000, func(t *rapid.T) {
@@ -510,6 +528,8 @@ func TestSessions(t *testing.T) {
 		add(st.serverFirst, "server-speaks-first")
 		add(st.abandoned, "abandoned-writer")
 		add(st.partialRead, "partial-read")
+		add(st.idle, "idle-time-passes")
+		add(st.idle && c.Client.HandshakeTimeout != 0, "idle-after-handshake-timeout")
 		add(c.Client.Compression && c.Server.Compression, "negotiated")
 		add(!(c.Client.Compression && c.Server.Compression), "not-negotiated")
 		recSession.Case(nt, ev.Hash(c), cl, func() any { return brief(c) })
